@@ -183,7 +183,9 @@ func genDedup(r *vlib.R, tier string, emit func(string)) {
 		emit(fmt.Sprintf("dedup burst ok%d %d %d %d %s %d", 60+r.Intn(120), 2+r.Intn(5), r.Intn(3), 1+r.Intn(2), vlib.Pick(r, []string{"-", "follower"}), r.Intn(3)))
 		emit(fmt.Sprintf("dedup burst ok%d %d %d %d leader 0", 80+r.Intn(100), 2+r.Intn(4), 1+r.Intn(2), r.Intn(2)))
 		emit(fmt.Sprintf("dedup burst sf%d %d %d %d %s 0", 30+r.Intn(60), 2+r.Intn(4), r.Intn(2), r.Intn(2), cancel()))
-		emit(fmt.Sprintf("dedup burst hang %d %d %d %s %d", 2+r.Intn(4), r.Intn(3), r.Intn(2), cancel(), r.Intn(2)))
+		if tier == "thorough" {
+			emit(fmt.Sprintf("dedup burst hang %d %d %d %s %d", 2+r.Intn(4), r.Intn(3), r.Intn(2), cancel(), r.Intn(2)))
+		}
 		emit(fmt.Sprintf("dedup burst stuck %d %d %d - 0", 2+r.Intn(3), 1+r.Intn(2), r.Intn(2)))
 		// expired RFC 9520 failure: the next cohort runs the failure-probe path (regroup, probe limit)
 		emit("dedup shift 2500")
@@ -202,7 +204,9 @@ func genDedup(r *vlib.R, tier string, emit func(string)) {
 		// two workers, queue of one: queueing and overflow goroutines (fast upstream only)
 		emit("dedup new 700 0 2")
 		emit(fmt.Sprintf("dedup burst ok%d %d %d %d %s 0", 20+r.Intn(60), 4+r.Intn(6), r.Intn(3), r.Intn(2), cancel()))
-		emit(fmt.Sprintf("dedup burst sf%d %d %d %d - 0", 20+r.Intn(40), 4+r.Intn(6), r.Intn(3), 0))
+		if tier == "thorough" {
+			emit(fmt.Sprintf("dedup burst sf%d %d %d %d - 0", 20+r.Intn(40), 4+r.Intn(6), r.Intn(3), 0))
+		}
 		// budget-long upstream behind the two workers: the KNOWN queue-expiry finding (own signature)
 		emit(fmt.Sprintf("dedup burst %s %d %d %d - 0", vlib.Pick(r, []string{"hang", "stuck"}), 3+r.Intn(4), r.Intn(2), r.Intn(2)))
 		emit("dedup drain")
